@@ -37,7 +37,7 @@ BUDGET = {"quick": 500, "thorough": 3000}
 def cases(tier, seed):
     out = [{"sub": "oniom", "i": i} for i in range(10 if tier == "quick" else 80)]
     out += [{"sub": "link", "i": i} for i in range(8 if tier == "quick" else 100)]
-    out += [{"sub": "dmet", "i": i} for i in range(10 if tier == "quick" else 60)]
+    out += [{"sub": "dmet", "i": i} for i in range(14 if tier == "quick" else 70)]
     out += [{"sub": "mi", "i": i} for i in range(16 if tier == "quick" else 400)]
     return out
 
@@ -173,13 +173,13 @@ DMET_CASES = [
     # (label, geometry builder, fragment_atoms, exact?)
     ("H2_11", lambda pr: chem.chain(2, pr.uniform(0.6, 1.6)), [1, 1], True),
     ("H4_22", lambda pr: chem.chain(4, pr.uniform(0.8, 1.4)), [2, 2], True),
-    ("H4ring_22_nested", lambda pr: [(a, (x * (1.0 + 0.25 * (k % 2)), y, z)) for k, (a, (x, y, z)) in enumerate(chem.ring(4, pr.uniform(0.8, 1.2)))],
+    ("H4ring_22_nested", lambda pr: [(a, (x * (1.0 + 0.3 * (k % 2)) + 0.07 * k, y * (1.0 + 0.3 * (k % 2)), z)) for k, (a, (x, y, z)) in enumerate(chem.ring(4, pr.uniform(0.8, 1.2)))],
      [[0, 1], [2, 3]], True),
     ("H4_1111", lambda pr: chem.chain(4, pr.uniform(0.8, 1.3)), [1, 1, 1, 1], False),
     ("H4_4", lambda pr: chem.chain(4, pr.uniform(0.8, 1.3)), [4], True),
     ("H4_13", lambda pr: chem.chain(4, pr.uniform(0.8, 1.3)), [1, 3], False),
     ("H6_33", lambda pr: chem.chain(6, pr.uniform(0.9, 1.3)), [3, 3], True),
-    ("H6_222", lambda pr: chem.chain(6, pr.uniform(0.9, 1.3)), [2, 2, 2], False),
+    ("H6_222", lambda pr: [("H", (0.0, 0.0, 0.0 + 1.9 * (k // 2) + pr.choice([0.74, 0.8]) * (k % 2))) for k in range(6)], [2, 2, 2], False),
 ]
 
 
@@ -189,7 +189,7 @@ def run_dmet(case, ctx):
     from tangelo.problem_decomposition.dmet import Localization
     from tangelo.algorithms.classical import FCISolver
     rng, pr, s = case_rng(ctx.seed, "C15", "dmet", case["i"])
-    pool = DMET_CASES[:6] if ctx.tier == "quick" else DMET_CASES
+    pool = (DMET_CASES[:6] + [DMET_CASES[7]]) if ctx.tier == "quick" else DMET_CASES
     label, gb, frags, exact = pool[case["i"] % len(pool)]
     geom = [(a, tuple(float(x) for x in p)) for a, p in gb(pr)]
     loc = pr.choice([Localization.meta_lowdin, Localization.nao])
@@ -237,7 +237,10 @@ def run_dmet(case, ctx):
         if not single and case["i"] % 2 == 0:
             n = len(geom)
             perm = list(range(n))
-            pr.shuffle(perm)          # new position k holds old atom perm[k]
+            for _ in range(50):
+                pr.shuffle(perm)          # new position k holds old atom perm[k]
+                if n < 4 or any(perm[perm[k]] != k for k in range(n)):
+                    break                 # prefer permutations that are not their own inverse
             geom2 = [geom[p] for p in perm]
             pos = {old: new for new, old in enumerate(perm)}
             if all(isinstance(x, int) for x in frags):
